@@ -570,6 +570,9 @@ func checkC13(c *Ctx) {
 		}
 	}
 
+	// a hook failing in a later batch of a batched create rolls back the earlier batches too
+	checkBatchBracket(c, rd)
+
 	// ---- C13.skip ----
 	rk := c.Rule("C13.skip", "column-update finishers set SkipHooks before executing", 2)
 	stmtT := p.Named(pkgGorm, "Statement")
